@@ -150,7 +150,27 @@ func Gen(r *rand.Rand, size int, hostile float64) Feed {
 			st = append(st, row)
 		}
 	}
-	r.Shuffle(len(st), func(a, b int) { st[a], st[b] = st[b], st[a] })
+	if r.Intn(2) == 0 {
+		r.Shuffle(len(st), func(a, b int) { st[a], st[b] = st[b], st[a] })
+	} else {
+		// the rows of a trip stay together (trips of very different lengths follow each other), out of sequence order within the trip
+		byTrip := map[int][]Row{}
+		var order []int
+		for _, row := range st {
+			t := row["trip_id"].V
+			if _, ok := byTrip[t]; !ok {
+				order = append(order, t)
+			}
+			byTrip[t] = append(byTrip[t], row)
+		}
+		r.Shuffle(len(order), func(a, b int) { order[a], order[b] = order[b], order[a] })
+		st = st[:0:0]
+		for _, t := range order {
+			rows := byTrip[t]
+			r.Shuffle(len(rows), func(a, b int) { rows[a], rows[b] = rows[b], rows[a] })
+			st = append(st, rows...)
+		}
+	}
 	f["stop_times.txt"] = st
 	return f
 }
